@@ -98,3 +98,14 @@ package common
 //@   ensures exactlen: err == nil && shelleyFamily && len(a.extraData) == 0 ==>
 //@       ((ty <= 3 ==> len(data) == 57) && (ty == 6 || ty == 7 || ty == 14 || ty == 15 ==> len(data) == 29))
 //@   ensures trailer: err == nil && shelleyFamily && len(a.extraData) != 0 ==> data[0] & 15 == 1
+
+// C34: Shelley..Conway body binding. The accepted header hash is Blake2b-256 over the concatenation
+// of the Blake2b-256 hashes of block items 1..n-1 (n is the era's item count), as decoded from data.
+//@ spec rec func hashcat(raw []cbor.RawMessage, k int) Seq = ite(k <= 1, emptyseq(), cat(hashcat(raw, k-1), seq(H256(seq(raw[k-1])))))
+//@ func ValidateBlockBodyHash(data, expectedBodyHash, eraName, minRawLength) (err)
+//@   props C34
+//@   attr trackcalls on
+//@   requires items: minRawLength >= 1 && minRawLength <= 8
+//@   ensures bound: err == nil ==> called(Decode) && callarg(Decode, 0) == data && callres(Decode, 1) == nil &&
+//@       len(raw) >= minRawLength && expectedBodyHash == H256(hashcat(raw, minRawLength))
+//@   loop 0 invariant i >= 1 && i <= minRawLength && minRawLength <= len(raw) && seq(bodyHashes) == hashcat(raw, i)
